@@ -17,7 +17,13 @@ pub fn calc_chunk_size(
         ChunkSize::Min(x) => {
             ResolvedChunkSize::Min(min_chunk_size(input_len, max_num_threads, x.into()))
         }
-        ChunkSize::Exact(x) => ResolvedChunkSize::Exact(x.into()),
+        ChunkSize::Exact(x) => {
+            let x: usize = x.into();
+            ResolvedChunkSize::Exact(match input_len {
+                Some(len) => x.min(len.max(1)),
+                None => x,
+            })
+        }
     }
     .validate()
 }
